@@ -7,7 +7,7 @@
    after fill_source_line_info.  [wf_file] states only what the parser's integer types
    guarantee (u64 addresses, u32 sizes/depths) plus "fewer than 2^32-1 INLINE ranges per FUNC". *)
 From Coq Require Import Lia.
-From RM Require Import C08.Model C08.Proofs C11.Model C11.Proofs1 C11.Proofs2 C11.Proofs3 C11.Proofs4 C11.Proofs5.
+From RM Require Import C08.Model C08.Proofs C11.Model C11.Proofs1 C11.Proofs2 C11.Proofs3 C11.Proofs4 C11.Proofs5 C11.Proofs6.
 Open Scope Z_scope.
 
 (* Parsing and symbolication never panic (overflow in `address + module.base_address()`,
@@ -131,6 +131,46 @@ Proof.
 Qed.
 Print Assumptions c11_inlinee_lookup_sound.
 
+(* For files whose records do not overlap ([non_overlapping]: FUNC ranges pairwise, line ranges
+   of a FUNC pairwise, INLINE ranges of one depth of a FUNC pairwise; [a, a+size) with empty
+   records occupying nothing) the result equals plain linear scans [find] over the records:
+   the FUNC ([ref_func]), its covering line record ([ref_line]), the covering INLINE record at
+   depth 0,1,2,… ([ref_chain]), assembled by [ref_fill_func]; without a covering FUNC the
+   greatest PUBLIC at or below the address, cut off exactly when a non-empty representable
+   FUNC record starts between it and the address.  (The parameter size is the one of
+   c11_func_sound; the STACK WIN tables are not part of the linear-scan statement.) *)
+Theorem c11_equals_linear_scan : forall p rf mbase instr,
+  wf_file rf -> non_overlapping rf -> 0 <= mbase -> mbase <= instr < two64 ->
+  exists o, symbolize p rf mbase instr = Ret o /\
+    match ref_func rf (instr - mbase) with
+    | Some fr => exists ps, o = ref_fill_func rf ps mbase (instr - mbase) fr
+    | None =>
+        ((forall q, In q (rf_publics rf) -> instr - mbase < p_addr q) /\ o = empty_out) \/
+        (exists pb, In pb (rf_publics rf) /\ p_addr pb <= instr - mbase /\
+           (forall q, In q (rf_publics rf) -> p_addr q <= instr - mbase -> pub_lt pb q = false) /\
+           let cut := exists fr, In fr (rf_funcs rf) /\ mk_range (fr_addr fr) (fr_size fr) <> None /\
+                                 p_addr pb <= fr_addr fr <= instr - mbase in
+           ((cut /\ o = empty_out) \/
+            (~ cut /\ o = mk_out (Some (p_name pb, p_addr pb + mbase, p_psize pb)) None [])))
+    end.
+Proof. exact equals_linear_scan. Qed.
+Print Assumptions c11_equals_linear_scan.
+
+(* the three lookups separately: binary searches = linear scans on non-overlapping records *)
+Theorem c11_lookups_linear :
+  (forall rf x, Forall wf_fraw (rf_funcs rf) -> pairwise func_dj (rf_funcs rf) ->
+     rm_get (into_rangemap_safe_p func_eqb (fin_list true (rf_funcs rf))) x =
+     option_map (fin_func true) (ref_func rf x)) /\
+  (forall ls x, Forall wf_line ls -> pairwise line_dj ls ->
+     rm_get (lines_tbl ls) x = find (fun l => line_covers l x) ls) /\
+  (forall fr d x, pairwise inl_dj (fr_inls fr) ->
+     get_inlinee_at_depth (fn_inls (fin_func true fr)) d x = Ret (ref_inl fr d x)).
+Proof.
+  exact (conj funcs_linear (conj lines_linear
+           (fun fr d x H => eq_trans (giad_ret _ d x) (f_equal Ret (inls_linear fr d x H))))).
+Qed.
+Print Assumptions c11_lookups_linear.
+
 Ltac wf_tac :=
   unfold wf_file, wf_fraw, wf_line, wf_inl, wf_pub, wf_win, u64, u32, two64, two32;
   repeat (first [apply Forall_nil | apply Forall_cons | split]); cbn; try lia.
@@ -161,6 +201,25 @@ Definition nv_file : raw_file :=
          [mk_win 16 32 12 0; mk_win 24 24 16 1] [mk_win 20 4 20 0].
 Example c11_nonvacuous_wf : wf_file nv_file.
 Proof. unfold nv_file; cbn [rf_funcs rf_publics rf_win_fd rf_win_fpo]; wf_tac. Qed.
+Definition nv_file2 : raw_file :=
+  mk_raw [(1, 7)] [(1, 21); (2, 22)] [mk_pub 8 3 0; mk_pub 90 9 4]
+         [mk_fraw 16 32 4 5 [mk_line 16 16 1 10; mk_line 32 16 1 11; mk_line 40 0 1 99]
+            [mk_inl 1 20 4 1 71 2; mk_inl 0 16 16 1 70 1; mk_inl 0 40 0 1 73 1; mk_inl 0 36 4 1 74 2];
+          mk_fraw 60 0 0 6 [] []; mk_fraw 64 8 0 7 [] []] [] [].
+Example c11_nonvacuous_nonoverlap :
+  wf_file nv_file2 /\ non_overlapping nv_file2 /\
+  ref_func nv_file2 21 = Some (mk_fraw 16 32 4 5 [mk_line 16 16 1 10; mk_line 32 16 1 11; mk_line 40 0 1 99]
+            [mk_inl 1 20 4 1 71 2; mk_inl 0 16 16 1 70 1; mk_inl 0 40 0 1 73 1; mk_inl 0 36 4 1 74 2]) /\
+  symbolize Debug nv_file2 4096 (4096 + 21) =
+    Ret (mk_out (Some (5, 4112, 4)) (Some (7, 70, 4112)) [(21, Some 7, Some 71); (22, Some 7, Some 10)]) /\
+  symbolize Debug nv_file2 4096 (4096 + 95) = Ret (mk_out (Some (9, 4186, 4)) None []) /\
+  symbolize Debug nv_file2 4096 (4096 + 80) = Ret empty_out.
+Proof.
+  split; [unfold nv_file2; cbn [rf_funcs rf_publics rf_win_fd rf_win_fpo]; wf_tac|].
+  split; [|repeat split; vm_compute; reflexivity].
+  unfold non_overlapping, nv_file2, func_dj, line_dj, inl_dj, occ_disjoint; cbn.
+  repeat (first [apply Forall_nil | apply Forall_cons | split]); cbn; try lia; try (right; lia).
+Qed.
 Example c11_nonvacuous_run :
   symbolize Debug nv_file 18446744073709550000 (18446744073709550000 + 21) =
     Ret (mk_out (Some (5, 18446744073709550016, 12)) (Some (7, 70, 18446744073709550016))
